@@ -26,6 +26,18 @@ CLAIMED["C09"] = dict(
         "CRC collisions are a limit of the format. Trusted: Coq kernel, translator, Go harness, python oracle. No axioms.",
    technique="Rocq proof of codec round-trip/layout/soundness over a byte-level model + refutation witness; byte-level differential correspondence incl. fault stream",
    design="6/C09")
+CLAIMED["C14"] = dict(
+   text="Theorem C14_hint_roundtrip (for ALL item lists, index intervals, data sizes): reading a written hint file yields exactly the items and "
+        "the recorded data size, over a byte-level model of hintFileWriter/hintFileReader/loadHintIndex/hintFileIndex.get (binary search as "
+        "sort.Search, sparse-index seek)/HintBuffer/merge. Finding F1 (lookup of an absent key above all hashes errors) is a refutation theorem "
+        "over the model parameterised by a flag translated from the source, and was repaired by a fix: commit; the flag is proved on for the "
+        "current tree. Correspondence: files built through HintBuffer.Set/Dump compared byte for byte, read-back, index length, ~13k lookups "
+        "per quick run (present / absent below, between, same-hash-other-key, above), k-way merge output and collision table; a python spec "
+        "oracle (round-trip, found-iff-present-never-error, greatest-position-wins, same-hash groups reported) judges the implementation.",
+   note="PARTIAL: total-lookup and merge-spec are established by correspondence + spec oracle, not yet by a general theorem (only the "
+        "round-trip is proved for all inputs). Trusted: Coq kernel, translator, Go harness, python oracle. No axioms.",
+   technique="Rocq proof of hint-file round-trip over a byte-level model + refutation/repair of the lookup defect; differential correspondence for lookup and merge",
+   design="6/C14")
 NOT_YET = {}
 props = [json.loads(l) for l in open(os.path.join(V, "properties.jsonl"))]
 checks = []
